@@ -1354,14 +1354,14 @@ PROPERTY = Property(
         SubCheck("scale", scale_cases(), make_check("scale"), quick=1600, thorough=80000, quick_shards=4,
                  rule="a*c, c*a, a/c, a*=c, a/=c with python/numpy int/float scalars (0, negative, "
                       "1e-6..1e6) on every class; non-trivial = non-zero values scaled by c not in {0,1}",
-                 floors={"scale:rmul": 0.2, "scale:idiv": 0.2, "scale:imul": 0.15, "scale:div": 0.15, "scale:mul": 0.25, "inplace": 0.3, "rebound": 0.01, "scale_kind:function": 0.1, "scale_kind:empty": 0.1, "c=0": 0.15, "c<0": 0.25, "ct:np": 0.15, "ct:npint": 0.15}),
+                 floors={"scale:rmul": 0.2, "scale:idiv": 0.17, "scale:imul": 0.15, "scale:div": 0.15, "scale:mul": 0.25, "inplace": 0.27, "rebound": 0.01, "scale_kind:function": 0.1, "scale_kind:empty": 0.1, "c=0": 0.15, "c<0": 0.25, "ct:np": 0.15, "ct:npint": 0.15}),
         SubCheck("regrid_sampled", regrid_sampled_cases(), make_check("regrid_sampled"),
                  quick=1600, thorough=80000, quick_shards=4,
                  rule="Signal/EmptySignal/GaussianNoise on uniform, non-uniform, int, huge grids (1-20 "
                       "samples) re-gridded to sub / super / disjoint / mixed / empty grids given as list "
                       "or array; non-trivial = one target holds shared, strictly-between (values "
                       "differ) and outside times",
-                 floors={"shared": 0.35, "between": 0.15, "outside": 0.25, "short_source": 0.2, "nonuniform_source": 0.08, "flag:all_three_regions": 0.08, "arg_array": 0.25, "arg_list": 0.35, "regrid_kind:empty": 0.12, "huge_times": 0.1, "int_times": 0.12}),
+                 floors={"shared": 0.35, "between": 0.13, "outside": 0.25, "short_source": 0.2, "nonuniform_source": 0.08, "flag:all_three_regions": 0.08, "arg_array": 0.25, "arg_list": 0.35, "regrid_kind:empty": 0.12, "huge_times": 0.1, "int_times": 0.12}),
         SubCheck("regrid_function", regrid_function_cases(), make_check("regrid_function"),
                  quick=1600, thorough=80000, quick_shards=4,
                  rule="FunctionSignal / thermal noise / Askaryan after shifts, scalings, sums, filters, "
@@ -1381,7 +1381,7 @@ PROPERTY = Property(
                       "shift, filter, with_times, in-place writes into signals and arguments); "
                       "non-trivial = a modification after a derivation of the modified object, "
                       "or a mixed-class addition",
-                 floors={"len>=10": 0.25, "flag:mutate_after_derive": 0.25, "accepted": 0.2, "op:regrid": 0.3, "flag:mixed_add": 0.12, "regrid_kind:function": 0.1, "copy_kind:function": 0.08, "refused_grid": 0.1, "sum_many": 0.1}),
+                 floors={"len>=10": 0.25, "flag:mutate_after_derive": 0.22, "accepted": 0.2, "op:regrid": 0.3, "flag:mixed_add": 0.1, "regrid_kind:function": 0.06, "copy_kind:function": 0.07, "refused_grid": 0.08, "sum_many": 0.06}),
     ],
     assumptions=[
         "time arrays are strictly increasing (re-gridding by interpolation is only defined then); "
